@@ -14,9 +14,9 @@ git checkout -q -- . ; git apply "$SRC/patch.diff" || { echo "patch does not app
 go build ./... || { echo BUILD-FAIL; exit 2; }
 SUITE=$(go test -vet=off -count=1 ./... 2>&1 | grep -c "^FAIL")
 cp "$SRC/demo_test.go" "$WT/$DIR/zz_seed_demo_test.go"
-DEMO_WITH=$(cd "$WT/$DIR" && go test -vet=off -count=1 -run 'Seed|Demo' . 2>&1 | tail -1)
+DEMO_WITH=$(cd "$WT/$DIR" && go test -vet=off -count=1 -run 'Seed|Demo|C[0-9][0-9]b?' . 2>&1 | tail -1)
 git apply -R "$SRC/patch.diff"
-DEMO_WITHOUT=$(cd "$WT/$DIR" && go test -vet=off -count=1 -run 'Seed|Demo' . 2>&1 | tail -1)
+DEMO_WITHOUT=$(cd "$WT/$DIR" && go test -vet=off -count=1 -run 'Seed|Demo|C[0-9][0-9]b?' . 2>&1 | tail -1)
 rm -f "$WT/$DIR/zz_seed_demo_test.go"
 echo "suite-fail-count=$SUITE demo-with-change: $DEMO_WITH | demo-without: $DEMO_WITHOUT"
 # run the check on /repo with the change
